@@ -132,9 +132,10 @@ def run_exits(ck, paths, idx):
     if rng.random() < 0.6:
         L = rng.choice([300, 520, 700, 1100])
         seqs = gen.family(rng, rng.randint(3, 8), L, alpha, "random", 0.12, 0.01, 4)
+        full = list(seqs)
         for _ in range(rng.randint(1, 3)):
-            src = rng.choice(seqs)
-            fl = rng.randint(30, 110)
+            src = rng.choice(full)
+            fl = min(rng.randint(30, 110), len(src) - 1)
             st = rng.choice([len(src) - fl, rng.randint(0, len(src) - fl), rng.randint(260, len(src) - fl) if len(src) - fl > 260 else 0])
             seqs.append(src[max(0, st):max(0, st) + fl])
         rng.shuffle(seqs)
